@@ -161,6 +161,12 @@ func (s *GraphSpec) construct() parsley.Parser {
 		return pairGraph()
 	case "tokens":
 		return tokensGraph()
+	case "manyopt":
+		// a repetition whose operand can match the empty string. On the unchanged tree this
+		// does not terminate (the premise "repetition operands consume input" is the
+		// user's obligation), so such cases run under a tiny step budget and are discarded;
+		// a library that makes them terminate gets them checked like any other graph.
+		return combinator.Sentence(combinator.Many(combinator.Optional(terminal.Rune('a'))).Bind(concatInterp))
 	case "grammar":
 		return build(s.G, &buildOpts{Memo: true, Interp: s.Interp, Order: s.Order}).Root
 	}
@@ -316,6 +322,8 @@ func (s *GraphSpec) genInput(r *Rand) string {
 		if r.Chance(1, 4) {
 			in = mutate(r, in, "?! \n=")
 		}
+	case "manyopt":
+		in = strings.Repeat("a", r.Intn(6))
 	case "grammar":
 		in = s.G.genInput(r, "ab", 12)
 	}
